@@ -370,6 +370,15 @@ pub fn check(property: &str, tier: &str, started: Instant) -> i32 {
                 continue;
             }
         }
+        if f.signature == "no_quiescence" {
+            // the step allowance is the harness's: the verdict counts only if four times the allowance is not enough either
+            entropy::set(rng::mix2(f.seed, rng::fnv("entropy")));
+            let again = matches!(world_a::execute(&case.program, &mut Mode::Replay { choices: &case.choices, at: 0 }, 160), Err(SchedError::Budget(_)));
+            if !again {
+                println!("NOTE: run {} needed more than the usual step allowance but did become quiescent; not reported", f.run);
+                continue;
+            }
+        }
         violations += 1;
         let (mcase, evals, minimised) = if minimise_left > 0 && started.elapsed().as_secs() < min_deadline {
             minimise_left -= 1;
